@@ -305,16 +305,28 @@ Qed.
 
 Definition trl0 : trl := Build_trl VUndef VUndef VUndef VUndef VUndef VUndef VUndef so.
 
+(* the statuses of the table-slice framing (before anything is allocated) *)
+Definition ts_frame_status (sx : list Z) (st : Z) : Prop :=
+  match sec_read sx with
+  | Err e => st = e
+  | Ok (x, s1) =>
+    if x =? 5 then st = SBDF_TABLEEND else if negb (x =? 3) then st = SBDF_ERROR_UNEXPECTED_SECTION_ID else
+    match read_int32 false s1 with
+    | Err e => st = e
+    | Ok (cnt, _) => if cnt <? 0 then st = SBDF_ERROR_INVALID_SIZE else if negb (cnt =? n) then st = SBDF_ERROR_COLUMN_COUNT_MISMATCH else True
+    end
+  end.
+
 Lemma ts_read_bs k sx m : Forall byte sx ->
   (forall s1 s2, sec_read sx = Ok (3, s1) -> read_int32 false s1 = Ok (n, s2) -> cols_nobit (Z.to_nat n) s2) ->
   exists st l' k' s' h' m',
-    bsE prog_env (fbody prog_sbdf_ts_read) (trf trl0 k sx h m) (OReturn (VInt st) (trf l' k' s' h' m')) /\ prefix_of m m' /\
+    bsE prog_env (fbody prog_sbdf_ts_read) (trf trl0 k sx h m) (OReturn (VInt st) (trf l' k' s' h' m')) /\ prefix_of m m' /\ ts_frame_status sx st /\
     ((st = SBDF_OK /\ t_so l' = VCell L 0 /\
         (exists hs blocks, h' = HT (hs ++ zeros (Z.to_nat (cap - n))) blocks /\ zlen hs = n /\ cols_sem m' (S (S L)) hs blocks) /\
         exists s1 s2, sec_read sx = Ok (3, s1) /\ read_int32 false s1 = Ok (n, s2) /\ cols_end (Z.to_nat n) s2 = Some s')
      \/ (st < 0 /\ t_so l' = so /\ exists j, h' = h ++ nones j)).
 Proof.
-  intros Hs NBC.
+  intros Hs NBC. unfold ts_frame_status.
   assert (Hc1 : n <= cap) by (apply cap_loop_enough; lia).
   pose proof (sec_read_bs2 bv o fv (VPtr ROut 0) VUndef VUndef VUndef VUndef k sx h m I I Hs) as SR.
   (* the declarations and the argument check *)
@@ -329,7 +341,7 @@ Proof.
   2: { (* no section marker *)
     destruct SR as (e' & v' & r' & s' & SR).
     assert (Hneg : st0 < 0) by (destruct (sec_read_err sx st0 ESR) as [-> | ->]; reflexivity).
-    exists st0. eexists (Build_trl _ _ _ _ _ _ _ _). do 4 eexists. split; [|split; [exists []; now rewrite app_nil_r|right; split; [exact Hneg|split; [reflexivity|exists 0%nat; cbn; now rewrite app_nil_r]]]].
+    exists st0. eexists (Build_trl _ _ _ _ _ _ _ _). do 4 eexists. split; [|split; [exists []; now rewrite app_nil_r|split; [reflexivity|right; split; [exact Hneg|split; [reflexivity|exists 0%nat; cbn; now rewrite app_nil_r]]]]].
     cbn [fbody prog_sbdf_ts_read]. apply HEAD. untr.
     eapply bsE_seq_ret. eapply bsE_seq; [eapply bsE_call; [reflexivity|evs; reflexivity|reflexivity|exact SR|unfold sr2, fr; evs; reflexivity]|].
     eapply bsE_if; [evs; reflexivity|cbn [truth]; replace (st0 =? 0) with false by lia; reflexivity|]. eapply bsE_return. evs. reflexivity. }
@@ -345,12 +357,12 @@ Proof.
     eapply bsE_seq; [|exact B]. eapply bsE_seq; [eapply bsE_call; [reflexivity|evs; reflexivity|reflexivity|exact SR|unfold sr2, fr; evs; reflexivity]|eapply bsE_if; [evs; reflexivity|reflexivity|apply bsE_skip]]. }
   destruct (x =? 5) eqn:E5.
   { (* the end of the table *)
-    exists (-1000). eexists (Build_trl _ _ _ _ _ _ _ _). do 4 eexists. split; [|split; [exists []; now rewrite app_nil_r|right; split; [reflexivity|split; [reflexivity|exists 0%nat; cbn; now rewrite app_nil_r]]]].
+    exists (-1000). eexists (Build_trl _ _ _ _ _ _ _ _). do 4 eexists. split; [|split; [exists []; now rewrite app_nil_r|split; [try reflexivity; exact I|right; split; [reflexivity|split; [reflexivity|exists 0%nat; cbn; now rewrite app_nil_r]]]]].
     cbn [fbody prog_sbdf_ts_read]. apply HEAD. apply HEAD2. untr.
     eapply bsE_seq_ret. eapply bsE_if; [evs; chk7; evs; rewrite E5; reflexivity|reflexivity|]. eapply bsE_return. evs. chk7. reflexivity. }
   destruct (x =? 3) eqn:E3.
   2: { (* some other section *)
-    exists SBDF_ERROR_UNEXPECTED_SECTION_ID. eexists (Build_trl _ _ _ _ _ _ _ _). do 4 eexists. split; [|split; [exists []; now rewrite app_nil_r|right; split; [reflexivity|split; [reflexivity|exists 0%nat; cbn; now rewrite app_nil_r]]]].
+    exists SBDF_ERROR_UNEXPECTED_SECTION_ID. eexists (Build_trl _ _ _ _ _ _ _ _). do 4 eexists. split; [|split; [exists []; now rewrite app_nil_r|split; [try reflexivity; exact I|right; split; [reflexivity|split; [reflexivity|exists 0%nat; cbn; now rewrite app_nil_r]]]]].
     cbn [fbody prog_sbdf_ts_read]. apply HEAD. apply HEAD2. untr.
     eapply bsE_seq_ret. eapply bsE_if; [evs; chk7; evs; rewrite E5; reflexivity|reflexivity|].
     eapply bsE_if; [evs; chk7; evs; rewrite E3; reflexivity|reflexivity|]. eapply bsE_return. evs. chk7. reflexivity. }
@@ -364,7 +376,7 @@ Proof.
   destruct (read_int32 false s1) as [[cnt s2]|e] eqn:ER.
   2: { (* the column count cannot be read *)
     destruct RI as (c' & s' & RI). pose proof (read_int32_err s1 e ER). subst e.
-    exists SBDF_ERROR_IO. eexists (Build_trl _ _ _ _ _ _ _ _). do 4 eexists. split; [|split; [exists []; now rewrite app_nil_r|right; split; [reflexivity|split; [reflexivity|exists 0%nat; cbn; now rewrite app_nil_r]]]].
+    exists SBDF_ERROR_IO. eexists (Build_trl _ _ _ _ _ _ _ _). do 4 eexists. split; [|split; [exists []; now rewrite app_nil_r|split; [try reflexivity; exact I|right; split; [reflexivity|split; [reflexivity|exists 0%nat; cbn; now rewrite app_nil_r]]]]].
     cbn [fbody prog_sbdf_ts_read]. apply HEAD. apply HEAD2. apply HEAD3. untr.
     eapply bsE_seq_ret. eapply bsE_seq; [eapply bsE_call; [reflexivity|evs; reflexivity|reflexivity|exact RI|unfold ri2; evs; reflexivity]|].
     eapply bsE_if; [evs; reflexivity|reflexivity|]. eapply bsE_return. evs. reflexivity. }
@@ -375,12 +387,12 @@ Proof.
   { intros X oo B. revert B. untr. intros B.
     eapply bsE_seq; [|exact B]. eapply bsE_seq; [eapply bsE_call; [reflexivity|evs; reflexivity|reflexivity|exact RI|unfold ri2; evs; reflexivity]|eapply bsE_if; [evs; reflexivity|reflexivity|apply bsE_skip]]. }
   destruct (cnt <? 0) eqn:Eneg.
-  { exists SBDF_ERROR_INVALID_SIZE. eexists (Build_trl _ _ _ _ _ _ _ _). do 4 eexists. split; [|split; [exists []; now rewrite app_nil_r|right; split; [reflexivity|split; [reflexivity|exists 0%nat; cbn; now rewrite app_nil_r]]]].
+  { exists SBDF_ERROR_INVALID_SIZE. eexists (Build_trl _ _ _ _ _ _ _ _). do 4 eexists. split; [|split; [exists []; now rewrite app_nil_r|split; [try reflexivity; exact I|right; split; [reflexivity|split; [reflexivity|exists 0%nat; cbn; now rewrite app_nil_r]]]]].
     cbn [fbody prog_sbdf_ts_read]. apply HEAD. apply HEAD2. apply HEAD3. apply HEAD4. untr.
     eapply bsE_seq_ret. eapply bsE_if; [evs; chk7; evs; rewrite Eneg; reflexivity|reflexivity|]. eapply bsE_return. evs. chk7. reflexivity. }
   destruct (cnt =? n) eqn:Ecn.
   2: { (* not the number of columns of the table *)
-    exists SBDF_ERROR_COLUMN_COUNT_MISMATCH. eexists (Build_trl _ _ _ _ _ _ _ _). do 4 eexists. split; [|split; [exists []; now rewrite app_nil_r|right; split; [reflexivity|split; [reflexivity|exists 0%nat; cbn; now rewrite app_nil_r]]]].
+    exists SBDF_ERROR_COLUMN_COUNT_MISMATCH. eexists (Build_trl _ _ _ _ _ _ _ _). do 4 eexists. split; [|split; [exists []; now rewrite app_nil_r|split; [try reflexivity; exact I|right; split; [reflexivity|split; [reflexivity|exists 0%nat; cbn; now rewrite app_nil_r]]]]].
     cbn [fbody prog_sbdf_ts_read]. apply HEAD. apply HEAD2. apply HEAD3. apply HEAD4. untr.
     eapply bsE_seq; [eapply bsE_if; [evs; chk7; evs; rewrite Eneg; reflexivity|reflexivity|apply bsE_skip]|].
     eapply bsE_seq_ret. eapply bsE_if; [evs; chk7; evs; replace (0 + 1) with 1 by lia; rewrite Htm; evs; rewrite Ecn; reflexivity|reflexivity|]. eapply bsE_return. evs. chk7. reflexivity. }
@@ -394,7 +406,7 @@ Proof.
     eapply bsE_seq; [eapply bsE_if; [evs; chk7; evs; replace (0 + 1) with 1 by lia; rewrite Htm; evs; rewrite Ecn; reflexivity|reflexivity|apply bsE_skip]|]. exact B. }
   destruct (k =? 0) eqn:Ek0.
   { (* the struct cannot be allocated *)
-    exists SBDF_ERROR_OUT_OF_MEMORY. eexists (Build_trl _ _ _ _ _ _ _ _). do 4 eexists. split; [|split; [exists []; now rewrite app_nil_r|right; split; [reflexivity|split; [reflexivity|exists 0%nat; cbn; now rewrite app_nil_r]]]].
+    exists SBDF_ERROR_OUT_OF_MEMORY. eexists (Build_trl _ _ _ _ _ _ _ _). do 4 eexists. split; [|split; [exists []; now rewrite app_nil_r|split; [try reflexivity; exact I|right; split; [reflexivity|split; [reflexivity|exists 0%nat; cbn; now rewrite app_nil_r]]]]].
     cbn [fbody prog_sbdf_ts_read]. apply HEAD. apply HEAD2. apply HEAD3. apply HEAD4. apply HEAD5. untr.
     eapply bsE_seq; [eapply bsE_expr; evs; chk7; evs; rewrite Ek0; evs; reflexivity|].
     eapply bsE_seq_ret. eapply bsE_if; [evs; reflexivity|reflexivity|]. eapply bsE_return. evs. chk7. reflexivity. }
@@ -414,7 +426,7 @@ Proof.
   assert (G0 : forall (b : list val) (r : heap) j, 0 <= j -> cell_get (h ++ Some b :: r) L j = nth_error b (Z.to_nat j)) by (intros; apply cell_get_at; [reflexivity|assumption]).
   destruct (k1 =? 0) eqn:Ek1.
   { (* the columns array cannot be allocated: the struct is released again *)
-    exists SBDF_ERROR_OUT_OF_MEMORY. eexists (Build_trl _ _ _ _ _ _ _ _). do 4 eexists. split; [|split; [exists []; now rewrite app_nil_r|right; split; [reflexivity|split; [reflexivity|exists 1%nat; reflexivity]]]].
+    exists SBDF_ERROR_OUT_OF_MEMORY. eexists (Build_trl _ _ _ _ _ _ _ _). do 4 eexists. split; [|split; [exists []; now rewrite app_nil_r|split; [exact I|right; split; [reflexivity|split; [reflexivity|exists 1%nat; reflexivity]]]]].
     cbn [fbody prog_sbdf_ts_read]. apply HEAD. apply HEAD2. apply HEAD3. apply HEAD4. apply HEAD5. apply ALLOC. untr.
     eapply bsE_seq; [eapply bsE_expr; evs; chk7; evs; replace (0 <=? cap) with true by lia; evs; rewrite Ek1; evs; chk7; evs; replace (0 <=? cap) with true by lia; evs; change (0 + 2) with 2;
                      rewrite (cell_set_at h blk0 [] L 2 VNull [VInt 0; VInt 0; VNull; VInt 0] eq_refl ltac:(lia) eq_refl); evs; reflexivity|].
@@ -438,7 +450,7 @@ Proof.
   destruct (ts_loop_bs (Z.to_nat n) 0 [] [] VUndef k2 s2 m ltac:(lia) ltac:(lia) eq_refl (cols_nil _ _) Hs2 NBC)
     as [(hs' & blocks' & a1' & k' & s' & m' & BL & Pf & R1 & R2 & R3)|(st & i' & a1' & k' & s' & m' & j & Hneg & Pf & BL)].
   - (* every column was read *)
-    exists SBDF_OK. eexists (Build_trl _ _ _ _ _ _ _ _). do 4 eexists. split; [|split; [exact Pf|left]].
+    exists SBDF_OK. eexists (Build_trl _ _ _ _ _ _ _ _). do 4 eexists. split; [|split; [exact Pf|split; [exact I|left]]].
     + cbn [fbody prog_sbdf_ts_read]. apply HEAD. apply HEAD2. apply HEAD3. apply HEAD4. apply HEAD5. apply ALLOC.
       cbn [app] in BL. replace (Z.to_nat (cap - 0)) with (Z.to_nat cap) in BL by lia.
       unfold ts_loop in BL. cbn [fbody prog_sbdf_ts_read] in BL.
@@ -447,7 +459,7 @@ Proof.
     + split; [reflexivity|]. split; [reflexivity|]. split; [exists hs', blocks'; split; [reflexivity|split; [exact R1|exact R2]]|].
       exists s1, s2. split; [reflexivity|]. split; [exact ER|exact R3].
   - (* a column could not be read *)
-    exists st. eexists (Build_trl _ _ _ _ _ _ _ _). do 4 eexists. split; [|split; [exact Pf|right; split; [exact Hneg|split; [reflexivity|exists j; reflexivity]]]].
+    exists st. eexists (Build_trl _ _ _ _ _ _ _ _). do 4 eexists. split; [|split; [exact Pf|split; [exact I|right; split; [exact Hneg|split; [reflexivity|exists j; reflexivity]]]]].
     cbn [fbody prog_sbdf_ts_read]. apply HEAD. apply HEAD2. apply HEAD3. apply HEAD4. apply HEAD5. apply ALLOC.
     cbn [app] in BL. replace (Z.to_nat (cap - 0)) with (Z.to_nat cap) in BL by lia.
     unfold ts_loop in BL. cbn [fbody prog_sbdf_ts_read] in BL.
@@ -460,7 +472,7 @@ End TsRead.
 Theorem ts_read_source rf rp fo po k sx m (h : heap) tmb n : Forall byte sx -> 0 <= n <= 715827882 -> cell_get h tmb 1 = Some (VInt n) ->
   (forall s1 s2, sec_read sx = Ok (3, s1) -> read_int32 false s1 = Ok (n, s2) -> cols_nobit (Z.to_nat n) s2) ->
   exists f0, forall f, (f0 <= f)%nat -> exists st fin,
-    callC prog_env f prog_sbdf_ts_read [VPtr rf fo; VCell tmb 0; VNull; VPtr rp po] m k sx h = OReturn (VInt st) fin /\ prefix_of m (inb fin) /\
+    callC prog_env f prog_sbdf_ts_read [VPtr rf fo; VCell tmb 0; VNull; VPtr rp po] m k sx h = OReturn (VInt st) fin /\ prefix_of m (inb fin) /\ ts_frame_status n sx st /\
     ((st = SBDF_OK /\ lookup "*out" (vars fin) = Some (VCell (List.length h) 0) /\
         (exists s1 s2 s', sec_read sx = Ok (3, s1) /\ read_int32 false s1 = Ok (n, s2) /\ cols_end (Z.to_nat n) s2 = Some s' /\ lookup strm_var (vars fin) = Some (VBytes s')) /\
         exists hnew, lookup cells_var (vars fin) = Some (VHeap (h ++ hnew)) /\ (2 <= List.length hnew)%nat /\
@@ -471,8 +483,8 @@ Theorem ts_read_source rf rp fo po k sx m (h : heap) tmb n : Forall byte sx -> 0
      \/ (st < 0 /\ lookup "*out" (vars fin) = Some VUndef /\ exists j, lookup cells_var (vars fin) = Some (VHeap (h ++ nones j)))).
 Proof.
   intros Hs Hn Htm NBC.
-  destruct (ts_read_bs (VInt 0) [] rf rp fo po VUndef h tmb n Hn Htm k sx m Hs NBC) as (st & l' & k' & s' & h' & m' & B & Pf & Out).
-  destruct (bsE_sound _ _ _ _ B) as (f0 & F). exists f0. intros f Hf. exists st. eexists. split; [apply F; exact Hf|]. split; [exact Pf|].
+  destruct (ts_read_bs (VInt 0) [] rf rp fo po VUndef h tmb n Hn Htm k sx m Hs NBC) as (st & l' & k' & s' & h' & m' & B & Pf & FS & Out).
+  destruct (bsE_sound _ _ _ _ B) as (f0 & F). exists f0. intros f Hf. exists st. eexists. split; [apply F; exact Hf|]. split; [exact Pf|]. split; [exact FS|].
   destruct l' as [q1 q2 q3 q4 q5 q6 q7 q8]. cbn [t_so] in Out.
   destruct Out as [(-> & -> & (hs & blocks & -> & Hz & C) & s1 & s2 & E1 & E2 & E3)|(Hneg & -> & j & ->)].
   - left. split; [reflexivity|]. split; [reflexivity|]. split; [exists s1, s2, s'; repeat split; assumption|].
